@@ -33,9 +33,28 @@ class _Sub(ast.NodeTransformer):
             return copy.deepcopy(self.env[node.id])
         return node
 
+    def visit_Attribute(self, node):
+        if isinstance(node.ctx, ast.Load):
+            key = _attr_key(node)
+            if key is not None and key in self.env and self.env[key] is not None:
+                return copy.deepcopy(self.env[key])
+        return self.generic_visit(node)
+
     # do not substitute inside comprehension targets / lambdas (their own scope)
     def visit_Lambda(self, node):
         return node
+
+
+def _attr_key(node):
+    """``self.a`` / ``self.a.b`` as an environment key, else None."""
+    parts = []
+    n = node
+    while isinstance(n, ast.Attribute):
+        parts.append(n.attr)
+        n = n.value
+    if isinstance(n, ast.Name) and n.id == "self" and parts:
+        return "self." + ".".join(reversed(parts))
+    return None
 
 
 def subst(expr, env):
@@ -70,13 +89,13 @@ class Straight:
 
     OPAQUE = None
 
-    def __init__(self, func, depth_limit: int = 4000):
+    def __init__(self, func, depth_limit: int = 4000, stmts=None, env=None):
         self.func = func
         self.limit = depth_limit
         self.snap = {}  # id(stmt) -> env before the statement
         self.final = {}
-        env = {}
-        self._block(func.body, env)
+        env = dict(env or {})
+        self._block(func.body if stmts is None else stmts, env)
         self.final = env
 
     def _size_ok(self, e):
@@ -107,6 +126,14 @@ class Straight:
             elif isinstance(st, ast.AugAssign) and isinstance(st.target, ast.Name):
                 cur = ast.Name(id=st.target.id, ctx=ast.Load())
                 self._assign(env, st.target.id, ast.BinOp(left=cur, op=st.op, right=st.value))
+            elif isinstance(st, ast.Assign) and len(st.targets) == 1 and isinstance(st.targets[0], ast.Attribute) and _attr_key(st.targets[0]) \
+                    and not self._calls_self_method(st.value):
+                v = st.value
+                mutable = isinstance(v, (ast.Dict, ast.List, ast.Set, ast.ListComp, ast.DictComp, ast.SetComp)) or (
+                    isinstance(v, ast.Call) and not (isinstance(v.func, ast.Name) and v.func.id in ("int", "float", "str", "bool", "len", "max", "min", "round", "abs", "tuple", "frozenset"))
+                    and not (isinstance(v.func, ast.Attribute) and isinstance(v.func.value, ast.Name) and v.func.value.id == "math"))
+                # the contents of a container (or of an object built by a call) change without the attribute being rebound
+                self._assign(env, _attr_key(st.targets[0]), None if mutable else v)
             elif isinstance(st, ast.If) and self._only_name_assigns(st):
                 e1, e2 = dict(env), dict(env)
                 self._block(st.body, e1)
@@ -123,12 +150,29 @@ class Straight:
                         self._kill_dependents(env, name)
                         env[name] = new if self._size_ok(new) else None
             else:
-                # anything else: names stored anywhere inside are opaque afterwards
+                # anything else: names stored anywhere inside are opaque afterwards; a call of a method of self may
+                # rebind any tracked attribute of self
+                if self._calls_self_method(st):
+                    for k in [k for k in env if k.startswith("self.")]:
+                        env[k] = None
+                for n in ast.walk(st):
+                    if isinstance(n, ast.Attribute) and isinstance(n.ctx, ast.Store) and _attr_key(n):
+                        env[_attr_key(n)] = None
                 for st2 in ast.walk(st):
                     self.snap.setdefault(id(st2), dict(env)) if isinstance(st2, ast.stmt) else None
                 for name in _assigned_names([st]):
                     self._kill_dependents(env, name)
                     env[name] = None
+
+    @staticmethod
+    def _calls_self_method(node):
+        for n in ast.walk(node):
+            if isinstance(n, ast.Call):
+                f = n.func
+                # a direct method of self (self.m(...)) may rebind attributes of self; self.a.m(...) cannot rebind them
+                if isinstance(f, ast.Attribute) and isinstance(f.value, ast.Name) and f.value.id == "self":
+                    return True
+        return False
 
     @staticmethod
     def _only_name_assigns(st):
@@ -321,3 +365,166 @@ def none_test(test, name):
         inner = none_test(test.operand, name)
         return None if inner is None else (not inner)
     return None
+
+
+def min_terms(expr, env=None):
+    """If ``expr`` is ``min(a, b)`` or a conditional that selects the smaller of two linear terms
+    (``b if a > b else a`` and its spellings) return the two terms as Lin; else None."""
+    env = env or {}
+    if isinstance(expr, ast.Call) and call_name(expr) == "min" and len(expr.args) == 2 and not expr.keywords:
+        return [lin_opaque(expr.args[0], env), lin_opaque(expr.args[1], env)]
+    if isinstance(expr, ast.IfExp) and isinstance(expr.test, ast.Compare) and len(expr.test.ops) == 1:
+        op = expr.test.ops[0]
+        a, b = lin_opaque(expr.test.left, env), lin_opaque(expr.test.comparators[0], env)
+        t, f = lin_opaque(expr.body, env), lin_opaque(expr.orelse, env)
+        if isinstance(op, (ast.Gt, ast.GtE)):  # a > b  -> smaller is b
+            small, big = b, a
+        elif isinstance(op, (ast.Lt, ast.LtE)):
+            small, big = a, b
+        else:
+            return None
+        if t.key() == small.key() and f.key() == big.key():
+            return [a, b]
+    return None
+
+
+def running_max(loop, var):
+    """The expression folded into ``var`` by a running maximum inside ``loop``
+    (``if e > var: var = e`` / ``var = max(var, e)`` / ``var = e if e > var else var``), else None."""
+    for n in ast.walk(loop):
+        if isinstance(n, ast.Assign) and len(n.targets) == 1 and isinstance(n.targets[0], ast.Name) and n.targets[0].id == var:
+            v = n.value
+            if isinstance(v, ast.Call) and call_name(v) == "max" and len(v.args) == 2 and not v.keywords:
+                a, b = v.args
+                if U(a) == var:
+                    return b
+                if U(b) == var:
+                    return a
+            par = getattr(n, "_parent", None)
+            if isinstance(par, ast.If) and not par.orelse and len(par.body) == 1 and isinstance(par.test, ast.Compare) and len(par.test.ops) == 1:
+                l, r, op = par.test.left, par.test.comparators[0], par.test.ops[0]
+                if isinstance(op, (ast.Gt, ast.GtE)) and U(l) == U(v) and U(r) == var:
+                    return v
+                if isinstance(op, (ast.Lt, ast.LtE)) and U(r) == U(v) and U(l) == var:
+                    return v
+            if isinstance(v, ast.IfExp) and isinstance(v.test, ast.Compare) and len(v.test.ops) == 1 and U(v.orelse) == var:
+                l, r, op = v.test.left, v.test.comparators[0], v.test.ops[0]
+                if isinstance(op, (ast.Gt, ast.GtE)) and U(l) == U(v.body) and U(r) == var:
+                    return v.body
+    return None
+
+
+def const_key_stores(func, receiver_texts):
+    """Stores ``R[<const str>] = value`` in ``func`` where R is one of ``receiver_texts`` or a local alias of one; a
+    ``for name in (<const strs>): R[name] = value`` loop is expanded.  Returns {key: [(value_node, stmt)]}."""
+    recv = set(receiver_texts)
+    for n in ast.walk(func):
+        if isinstance(n, ast.Assign) and len(n.targets) == 1 and isinstance(n.targets[0], ast.Name) and U(n.value) in recv:
+            recv.add(n.targets[0].id)
+    out = {}
+    for n in ast.walk(func):
+        if isinstance(n, ast.Assign) and len(n.targets) == 1 and isinstance(n.targets[0], ast.Subscript) and U(n.targets[0].value) in recv:
+            k = n.targets[0].slice
+            kc = try_const(k)
+            if isinstance(kc, str):
+                out.setdefault(kc, []).append((n.value, n))
+            elif isinstance(k, ast.Name):
+                p = getattr(n, "_parent", None)
+                if isinstance(p, ast.For) and isinstance(p.target, ast.Name) and p.target.id == k.id and isinstance(p.iter, (ast.Tuple, ast.List)):
+                    for e in p.iter.elts:
+                        ec = try_const(e)
+                        if isinstance(ec, str):
+                            out.setdefault(ec, []).append((n.value, n))
+    return out, recv
+
+
+def expand_aliases(func, node, limit: int = 6):
+    """Copy of ``node`` in which local names that are assigned exactly once in ``func`` from a side-effect free
+    attribute/subscript chain (``x = a.b[0].c``) are replaced by that chain, transitively."""
+    single = {}
+    stores = {}
+    for n in ast.walk(func):
+        if isinstance(n, ast.Name) and isinstance(n.ctx, (ast.Store, ast.Del)):
+            stores[n.id] = stores.get(n.id, 0) + 1
+    for a in func.args.args + func.args.kwonlyargs:
+        stores[a.arg] = stores.get(a.arg, 0) + 1
+
+    def chain(e):
+        while isinstance(e, (ast.Attribute, ast.Subscript)):
+            if isinstance(e, ast.Subscript) and not isinstance(e.slice, (ast.Constant, ast.Name)):
+                return False
+            e = e.value
+        return isinstance(e, ast.Name)
+
+    for n in ast.walk(func):
+        if isinstance(n, ast.Assign) and len(n.targets) == 1 and isinstance(n.targets[0], ast.Name) and stores.get(n.targets[0].id) == 1 and chain(n.value) \
+                and not isinstance(n.value, ast.Name):
+            single[n.targets[0].id] = n.value
+    out = _strip(node)
+    for _ in range(limit):
+        before = ast.dump(out)
+        out = _Sub(single).visit(copy.deepcopy(out))
+        if ast.dump(out) == before:
+            break
+    return out
+
+
+def bool_eval(test, atoms):
+    """Truth value of a condition given truth values for its atoms.  Atoms are keyed by text; ``X is None`` and
+    ``X is not None`` share the atom ``"X is None"``.  Returns None when an atom is missing."""
+    if isinstance(test, ast.BoolOp):
+        vals = [bool_eval(v, atoms) for v in test.values]
+        if any(v is None for v in vals):
+            return None
+        return all(vals) if isinstance(test.op, ast.And) else any(vals)
+    if isinstance(test, ast.UnaryOp) and isinstance(test.op, ast.Not):
+        v = bool_eval(test.operand, atoms)
+        return None if v is None else (not v)
+    if isinstance(test, ast.Compare) and len(test.ops) == 1 and isinstance(test.comparators[0], ast.Constant) and test.comparators[0].value is None \
+            and isinstance(test.ops[0], (ast.Is, ast.IsNot)):
+        k = f"{U(test.left)} is None"
+        if k not in atoms:
+            return None
+        return atoms[k] if isinstance(test.ops[0], ast.Is) else (not atoms[k])
+    if isinstance(test, ast.IfExp):
+        t = bool_eval(test.test, atoms)
+        if t is None:
+            return None
+        return bool_eval(test.body if t else test.orelse, atoms)
+    if isinstance(test, ast.Constant) and isinstance(test.value, bool):
+        return test.value
+    k = U(test)
+    return atoms.get(k)
+
+
+def bool_equiv(a, b, limit: int = 8):
+    """Propositional equivalence of two conditions over their textual atoms (True/False), None if too many atoms."""
+    import itertools
+
+    atoms = sorted(bool_atoms(a) | bool_atoms(b))
+    if len(atoms) > limit:
+        return None
+    for vals in itertools.product([False, True], repeat=len(atoms)):
+        asg = dict(zip(atoms, vals))
+        if bool_eval(a, asg) != bool_eval(b, asg):
+            return False
+    return True
+
+
+def bool_atoms(test):
+    out = set()
+    if isinstance(test, ast.IfExp):
+        return bool_atoms(test.test) | bool_atoms(test.body) | bool_atoms(test.orelse)
+    if isinstance(test, ast.Constant) and isinstance(test.value, bool):
+        return out
+    if isinstance(test, ast.BoolOp):
+        for v in test.values:
+            out |= bool_atoms(v)
+    elif isinstance(test, ast.UnaryOp) and isinstance(test.op, ast.Not):
+        out |= bool_atoms(test.operand)
+    elif isinstance(test, ast.Compare) and len(test.ops) == 1 and isinstance(test.comparators[0], ast.Constant) and test.comparators[0].value is None \
+            and isinstance(test.ops[0], (ast.Is, ast.IsNot)):
+        out.add(f"{U(test.left)} is None")
+    else:
+        out.add(U(test))
+    return out
